@@ -22,7 +22,7 @@ TraceRow == /\ T.out = "ok" /\ i < N /\ Len(T.res) = N /\ (IF "hi" \in DOMAIN T 
             /\ RowCum(T.keys[i + 1], T.vals[i + 1], T.sel[i + 1] = 1)
             /\ i' = i + 1
             /\ (Diag \/ LET r == i + 1 IN
-                          IF T.keys[r] = Null \/ T.sel[r] # 1 THEN TRUE
+                          IF T.keys[r] = Null \/ T.sel[r] # 1 \/ (IF "judge" \in DOMAIN T THEN T.judge[r] = 0 ELSE FALSE) THEN TRUE
                           ELSE /\ T.res[r] = out'[r]
                                /\ (IF "hi" \in DOMAIN T /\ out'[r] # Null
                                    THEN T.hi[r] = run'[T.keys[r]].c ELSE TRUE))
